@@ -441,19 +441,19 @@ def parse_single_name_into_parts(name, strict=True):
             # string. Last is the rest. NB., this means last cannot be empty.
 
             # At least one lowercase letter.
-            if 0 in cases:
-                # Index from end of list of first and last lowercase word.
+            #   (ignoring the final word, which cannot be consumed by von).
+            if 0 in cases[:-1]:
+                # Index from end of list of first and last lowercase word
+                #   (both not considering the final word).
                 firstl = cases.index(0) - len(cases)
-                lastl = -cases[::-1].index(0) - 1
-                if lastl == -1:
-                    lastl -= 1  # Cannot consume the rest of the string.
+                lastl = -cases[-2::-1].index(0) - 2
 
                 # Pull the parts out.
                 parts.first = p0[:firstl]
                 parts.von = p0[firstl : lastl + 1]
                 parts.last = p0[lastl + 1 :]
 
-            # No lowercase: last is the last word, first is everything else.
+            # No lowercase before the final word: last is the last word, first is everything else.
             else:
                 parts.first = p0[:-1]
                 parts.last = p0[-1:]
